@@ -40,6 +40,8 @@ class BuiltinMixin:
             if isinstance(v.t, TSet):
                 return V(INT, self.set_size(st, v))
             raise Unsupported(f"len of {v.t}")
+        if name == "pow" and len(args) == 2:
+            return self.binop(ast.Pow(), args[0], args[1], st, node)
         if name in ("min", "max"):
             if len(args) == 1:
                 raise Unsupported(f"{name} of an iterable")
